@@ -25,6 +25,7 @@ from .libmp import (MPZ, MPZ_ZERO, MPZ_ONE, int_types, repr_dps,
     mpf_glaisher, mpf_twinprime, mpf_mertens,
     int_types)
 
+from .libmp.libmpf import str_to_int
 from . import rational
 from . import function_docs
 
@@ -1101,8 +1102,9 @@ class PythonMPContext(object):
                 p, q = x._mpq_
             elif isinstance(x, basestring) and '/' in x:
                 p, q = x.split('/')
-                p = int(p)
-                q = int(q)
+                # (any number of digits: int() refuses long strings)
+                p = str_to_int(p)
+                q = str_to_int(q)
             if p is not None:
                 if not p % q:
                     return p // q, 'Z'
